@@ -130,7 +130,8 @@ def run(c):
         class Epo:
             events = np.column_stack([np.arange(ne), np.zeros(ne, int), rs.randint(1, 5, size=ne)])
             ch_names = [f'MEG{k:03d}' for k in range(nc)]
-            times = np.arange(nt) * 0.25 - 0.5
+            # sample times that are not multiples of a millisecond (256 / 600 Hz, odd tmin): seeded change C20-m10
+            times = np.arange(nt) / float(rs.choice([4, 256, 600, 1024])) - float(rs.choice([0.5, 0.1234, 0.2]))
 
             def get_data(self):
                 return data
@@ -175,6 +176,11 @@ def run_meadows_file(c):
     pets = sorted(PETNAMES)
     n = rs.randint(3, 6)
     stim = [f'{w}.png' for w in rs.permutation(['zebra', 'apple', 'mango', 'kiwi', 'berry', 'cherry'])[:n]]
+    if rs.rand() < 0.4:
+        # two files that give the same label once everything after the first dot is stripped (seeded change C20-m9)
+        i, j = rs.choice(n, 2, replace=False)
+        base = stim[i].split('.')[0]
+        stim[i], stim[j] = f'{base}.v1.png', f'{base}.v2.png'
     m = n * (n - 1) // 2
     d = tempfile.mkdtemp(prefix='verif_c20_')
     try:
